@@ -461,4 +461,95 @@ def check_drbg(ctx):
                    samples=[fills[0], fills[-1]])
 
 
-SUBCHECKS = {"C10": [check_dh], "C11": [check_drbg]}
+# --------------------------------------------------------------------------
+# C20-M3: secrets cleared before free in crypto_dh.c
+
+WIPE_HEADER = ("From Coq Require Import List String.\n"
+               "From LCP Require Import Crypto.DhWipeDefs Gen.Repo_dhwipe Crypto.DhWipeModel.\n"
+               "Import ListNotations.\nLocal Open Scope string_scope.\nSet Printing Width 1000000.\n")
+
+
+def wipe_term(case):
+    t = case.split()
+    k = int(t[-1])
+    ks = "None" if k < 0 else "(Some %d)" % k
+    return ("wipe_compute_case " if t[1] == "compute" else "wipe_generate_pub_case ") + ks
+
+
+def gen_wipe(ctx):
+    r = ctx.rng
+    p = rfc_prime()
+    cases = []
+
+    def rnd(n):
+        return bytes(r.randrange(256) for _ in range(n))
+    # every failing step (the API calls have 19 / 20 fallible steps; indices beyond = no failure), twice
+    for rep in range(ctx.n(1, 6)):
+        pub, priv, blind = be(r.randrange(p), 256), rnd(32), rnd(32)
+        for k in range(-1, 22):
+            cases.append("wipe compute %s %s %s %d" % (hx(pub), hx(priv), hx(blind), k))
+            ctx.count("wipe.compute.fail-step" if 0 <= k < 19 else "wipe.compute.success")
+        priv, blind = rnd(32), rnd(32)
+        for k in range(-1, 23):
+            cases.append("wipe genpub %s %s %d" % (hx(priv), hx(blind), k))
+            ctx.count("wipe.genpub.fail-step" if 0 <= k < 20 else "wipe.genpub.success")
+    # success path with many secrets (the memory scan is what matters here)
+    for _ in range(ctx.n(20, 400)):
+        if r.randrange(2):
+            cases.append("wipe compute %s %s %s -1" % (hx(be(r.randrange(1 << 2048), 256)), hx(rnd(32)), hx(rnd(32))))
+        else:
+            cases.append("wipe genpub %s %s -1" % (hx(rnd(32)), hx(rnd(32))))
+        ctx.count("wipe.random-secrets")
+    return cases
+
+
+def check_dh_wipe(ctx):
+    sub = "dh-wipe"
+    wexe, err = build_dh_wrap()
+    if not wexe:
+        ctx.fail(sub, "build", "", "C driver (--wrap build) does not build: " + err)
+        return
+    err = ensure_vo(["Crypto/DhWipeModel.vo"])
+    if err:
+        ctx.fail(sub, "tie", "", err)
+        return
+    if getattr(ctx, "replay", None) and ctx.replay.get("failing_input", {}).get("sub") == sub:
+        cases = [ctx.replay["failing_input"]["case"]]
+    else:
+        cases = corpus_cases("dh", ("wipe",)) + gen_wipe(ctx)
+    impl, st = vlib.run_sharded(wexe, cases, shards=4)
+    vlib.sanitizer_reports(ctx, sub, st)
+    terms = sorted(set(wipe_term(c) for c in cases))
+    work = os.path.join(vlib.BUILD, "dh", "%s-wipe-seed%d-%s" % (ctx.pid, ctx.seed, ctx.tier))
+    vals, errs = coq_eval(work, WIPE_HEADER, terms, shards=2)
+    for e in errs[:3]:
+        ctx.fail(sub, "tie", "", "model evaluation in coqc failed: " + e)
+    by_term = dict(zip(terms, vals))
+    model = [by_term[wipe_term(c)] for c in cases]
+
+    def sig(c, a, m):
+        return None
+    # a leak seen by the memory scan, or an unbalanced allocation count, is a failing input for
+    # the property; a different event sequence alone is a broken correspondence
+    nd = 0
+    for c, a, m in zip(cases, impl, model):
+        if a == m:
+            continue
+        nd += 1
+        if nd <= 4:
+            pf = (" leak=1" in a) or (" live=0" not in a)
+            ctx.fail(sub, "property" if pf else "diff", c[:60] + "... k=" + c.split()[-1] if len(c) > 200 else c,
+                     "impl=%s model=%s" % (a[:300], m[:300]), property_fails=pf)
+    ctx.count(sub + ".disagreements", nd)
+    ctx.record(sub, cases, set((c.split()[1], c.split()[-1], a) for c, a in zip(cases, impl)),
+               "crypto_dh_compute / crypto_dh_generate_pub at the repo's -O2 with the BN_* calls of crypto_dh.c "
+               "interposed (--wrap): the k-th fallible call is made to fail for every k; the sequence of allocation / "
+               "BN_clear_free / BN_free / BN_CTX events is compared with the Coq model's (program regenerated from the C); "
+               "OpenSSL's free hook (CRYPTO_set_mem_functions) scans every block released during those calls for any "
+               "8-byte limb of priv, blinding and priv-blinding in big-endian, little-endian and both limb orders; "
+               "outstanding OpenSSL allocations after the call must equal those before; non-trivial = distinct "
+               "(function, failing step, result)",
+               samples=[cases[0][:120] + " ...", cases[-1][:120] + " ..."])
+
+
+SUBCHECKS = {"C10": [check_dh], "C11": [check_drbg], "C20": [check_dh_wipe]}
